@@ -505,10 +505,21 @@ def plan_ops(doc: dict, man: dict, args: dict) -> list:
                             derive.append([k, {cn: f"cv-{tok.next()}"}])
                     else:
                         derive.append([k, 7.5])
+                if r2.random() < 0.5:
+                    # the derived client overrides entries the client was constructed with (several keys: the new value wins for each of them)
+                    ov_h = {f"X-Base-{i_}-{tok.next()}": f"old-{i_}" for i_ in range(4)}
+                    ov_c = {f"base{i_}x{tok.next()}": f"oldc-{i_}" for i_ in range(4)}
+                    client["headers"], client["cookies"] = dict(ov_h), dict(ov_c)
+                    derive.append(["with_headers", {k_: v_.replace("old", "new") for k_, v_ in ov_h.items()}])
+                    derive.append(["with_cookies", {k_: v_.replace("old", "new") for k_, v_ in ov_c.items()}])
                 client["derive"] = derive
                 client["context"] = r2.random() < 0.4
                 client["extra_headers"] = {k_: v_ for st in derive if st[0] == "with_headers" for k_, v_ in st[1].items()}
                 client["extra_cookies"] = {k_: v_ for st in derive if st[0] == "with_cookies" for k_, v_ in st[1].items()}
+                if r2.random() < 0.3 and client.get("headers"):
+                    # ... and entries given at construction that nothing overrides stay
+                    client["headers"]["X-Kept-Zq"] = "kept"
+                    client["extra_headers"]["X-Kept-Zq"] = "kept"
             x["client"] = client
             act_ = {"a": "call", "module": mod, "variants": variants_all if ci == 0 else rng.sample(variants_all, 2), "args": kwargs, "client": client, "response": resp, "x": x}
             # some calls ride on the client of the previous call (same or another operation) instead of a fresh one: whatever a call leaves on the
